@@ -651,7 +651,10 @@ class Summariser:
                             if not (tn & self.liveset):
                                 tr3 = tr3 + (("e", f"_ = {src(v)}"),)  # a call whose result is never read
                     else:
-                        tr3 = tr3 + (("e", f"{src(self.subst(t, env2))} = {src(v)}"),)
+                        vt = src(v)
+                        if len(targets) > 1 and t is not targets[0] and not isinstance(v, (ast.Constant, ast.Name)):
+                            vt = f"@same_object_as({src(self.subst(targets[0], env2))})"  # a = b = f(): one object, two places
+                        tr3 = tr3 + (("e", f"{src(self.subst(t, env2))} = {vt}"),)
                 out.append((env3, tr3))
             return out
         if isinstance(s, ast.AugAssign):
